@@ -379,7 +379,36 @@ def r04_6(prog: Program, rep: Report, pe, urows):
         )  # fmt: skip
 
 
+def r04_8(prog: Program, rep: Report, pe, urows):
+    """Numbers given for date/datetime/time are read through datetime.fromtimestamp(x, UTC), unaltered."""
+    for cls in ("datetime.date", "datetime.datetime", "datetime.time"):
+        k, r = C.route(prog, pe, urows, C.TypeArg(cls))
+        if k != "row" or r.routine is None:
+            continue
+        f = C.call_of(prog, r.routine)
+        numeric_paths = 0
+        ok = True
+        why = ""
+        for p in P.paths_of(prog, f):
+            numeric = any(pol and T.is_call_to(g, "builtins.isinstance") and g[2][0] in (VAL, DECODE) and _numeric_classes(g[2][1]) for g, pol in p.guards())
+            if not numeric or p.exit[0] != "return":
+                continue
+            ret = p.exit[1]
+            if not T.contains(ret, lambda y: y == VAL):
+                # e.g. the "time-only text means today" branch: not reachable with a number, and independent of it
+                continue
+            numeric_paths += 1
+            ft = [s for s in T.walk(ret) if T.is_call_to(s, "datetime.datetime.fromtimestamp")]
+            if not ft or not any(s[2][:1] in ((VAL,), (DECODE,)) for s in ft):
+                ok, why = False, "the number does not flow, unaltered, through datetime.fromtimestamp(x, tz=UTC)"
+            lossy = [s for s in T.walk(ret) if (T.is_call_to(s, "builtins.int", "builtins.round", "math.floor", "math.trunc") or (s[0] == "binop" and s[1] in ("//", "/", "%"))) and T.contains(s, lambda y: y == VAL)]
+            if lossy:
+                ok, why = False, f"the number is altered before it is read ({T.show(lossy[0])[:60]}): int() truncates toward zero, so pre-epoch values land on the wrong day"
+        rep.check(ok and numeric_paths > 0, "R04.8", f"{r.pred_name}->{r.routine.name}", f.loc, f"{cls}: numbers are read through fromtimestamp(x, UTC) unaltered ({numeric_paths} numeric paths)", f"{cls}: {why or 'no numeric path found'}", detail="epoch")
+
+
 def run(prog: Program, rep: Report, tier: str):
+    rep.rule("R04.8", "numbers for date/datetime/time go through fromtimestamp(x, UTC) unaltered", floor=3)
     rep.rule("R04.6", "canonical text reaches the target constructor before the lossy loader", floor=3)
     rep.rule("R04.7", "temporal reconstructions keep every field incl. offset and fold (shared with R01.3)", floor=3)
     rep.rule("R04.1", "epoch/UTC call-site discipline (fromtimestamp, now, date lift)", floor=8)
@@ -394,6 +423,7 @@ def run(prog: Program, rep: Report, tier: str):
     r04_3_4(prog, rep, pe, urows)
     r04_5(prog, rep, pe, urows)
     r04_6(prog, rep, pe, urows)
+    r04_8(prog, rep, pe, urows)
     # exact-class reconstruction keeps every field, offset and fold included (shared with R01.3)
     from ..report import Report as _R, absorb
     from . import c01
